@@ -181,7 +181,7 @@ def run_property(pid, tier='quick', seed=0):
               'function': m['qualname'], 'signature': m['type'], 'source': m['src'][:2] if m['src'] else None,
               'extracted_c_line': o.get('line'), 'in_function': o.get('function'),
               'params': m['params'], 'ret': m['ret'], 'cxx': u.cxx, 'pre': u.pre, 'post': u.post, 'lemma': u.lemma,
-              'cfg': u.cfg, 'backend': o['backend'], 'inputs': {}, 'solver_output': '', 'native_post': u.native_post}
+              'cfg': u.cfg, 'backend': o['backend'], 'inputs': {}, 'solver_output': '', 'native_post': u.native_post, 'pre_consts': list(u.pre_consts)}
         if u.engine == 'int':
             rp['inputs'] = o.get('inputs', {})
             rp['solver_output'] = 'sat (counterexample) from %s for obligation %s: %s' % (o['backend'], o['name'], o['desc'])
